@@ -16,5 +16,5 @@ class Check(PropertyCheck):
     assumptions = ["amounts are 128-bit"]
 
     def families(self, rng, tier):
-        return [("guards.assert_max_spread", fam_guards.spread_cases(rng, tier)),
-                ("world.guards", fam_world.guard_histories(rng, tier))]
+        return [("guards.assert_max_spread", fam_guards.spread_cases(rng.sub("spread_cases"), tier)),
+                ("world.guards", fam_world.guard_histories(rng.sub("guard_histories"), tier))]
